@@ -290,22 +290,11 @@ func r03c(c *an.Ctx) {
 	if fn := c.Fn("core/workflow", "aggregateState"); fn != nil {
 		c.Subject()
 		skips := 0
-		an.Instrs(fn, func(in ssa.Instruction) {
-			ifi, ok := in.(*ssa.If)
-			if !ok || !an.InLoop(ifi.Block()) {
-				return
+		for _, ci := range an.CallsNamed(fn, "(core/task/sm.State).X") {
+			if okF, types, _ := foldSkipsExactlyNonCritical(ci); okF {
+				skips = len(types)
 			}
-			v, _, ok := an.BoolCondEdge(ifi.Block())
-			if !ok {
-				return
-			}
-			if isFieldNamed(v, "Critical") {
-				skips++
-			}
-			if call, isCall := v.(*ssa.Call); isCall && an.MethodName(&call.Call) == "IsCritical" {
-				skips++
-			}
-		})
+		}
 		c.Ob("core/workflow.aggregateState|skips-noncritical", fn.Pos(), skips >= 1, "the state aggregate must skip non-critical leaves, matching the leaf gate (%d criticality tests in the fold)", skips)
 	} else {
 		c.Assume("R03c: no function workflow.aggregateState; the aggregate-side criticality gate is checked under C11 (R11c)")
